@@ -788,3 +788,11 @@ def resolve_at(body, e, bb, depth=0):
             return resolve_at(body, v, bi, depth + 1)
         return e
     return e
+
+
+def impl_bodies(facts, fn):
+    """With the `std` feature the multiversion attribute turns a function into a dispatcher; the code lives in
+    fn::<name>_default_version and fn::<name>_<features>_version::__safe_inner.  Returns the names of the bodies holding the code."""
+    short_ = fn.rsplit('::', 1)[-1]
+    out = [n for n in facts.bodies if n.startswith(fn + '::' + short_ + '_') and (n.endswith('_default_version') or n.endswith('_version::__safe_inner'))]
+    return sorted(out) if out else [fn]
